@@ -119,9 +119,11 @@ class LoopSpec:
     variant:   optional, for while loops.
     """
 
-    def __init__(self, inv, havoc=None, mutates=(), name=None, cond_pure=True, out_kind=None, frame_ok=(), elem_assume=None):
+    def __init__(self, inv, havoc=None, mutates=(), name=None, cond_pure=True, out_kind=None, frame_ok=(), elem_assume=None,
+                 on_havoc=None):
         self.inv, self.havoc, self.mutates, self.name = inv, havoc or {}, tuple(mutates), name
         self.elem_assume = elem_assume
+        self.on_havoc = on_havoc  # callable(it): havoc ghost state the loop body changes
         self.out_kind = out_kind
         self.frame_ok = tuple(frame_ok)  # attribute chains the loop may mutate (covered by the invariant)
 
